@@ -8,7 +8,7 @@ Import ListNotations.
 Local Open Scope nat_scope.
 
 Definition ul := (string * bool)%type.                 (* a literal over a user name *)
-Definition ulits (l : list ul) : list lit := map (fun p => ulit (fst p) (snd p)) l.
+Definition ulits (l : list ul) : list literal := map (fun p => ulit (fst p) (snd p)) l.
 
 Inductive post :=
 | PNewVar (s : string)                      (* newvar(name) *)
@@ -79,7 +79,6 @@ Fixpoint run_posts (m : memory) (s : mgr) (ps : list post) : option (memory * mg
   end.
 
 (* ---- what a posted constraint means for a user assignment ---- *)
-Definition uval (a : uasg) : valuation := fun v => match v with User s => a s | _ => false end.
 Definition post_holds (a : uasg) (p : post) : Prop :=
   match p with
   | PNewVar _ => True
@@ -101,7 +100,7 @@ Fixpoint accepted_hold (a : uasg) (ps : list post) (sts : list status) : Prop :=
   end.
 
 (* ---- solve / value / evalexpr ---- *)
-Definition value (e : valuation) (l : lit) : Z :=
+Definition value (e : valuation) (l : literal) : Z :=
   if snd l then (if e (fst l) then 1 else 0)%Z else (1 - (if e (fst l) then 1 else 0))%Z.
 Fixpoint evalterms (e : valuation) (l : list term) (s : Z) : Z :=
   match l with
